@@ -30,7 +30,10 @@ import (
 
 // ---------------------------------------------------------------- generators
 
-var namePool = []string{"forwarder", "fwd", "proxy-a", "a", "x.y", "martian", "Forwarder", "forwarder-1"}
+var namePool = []string{"forwarder", "fwd", "proxy-a", "a", "x.y", "martian", "Forwarder", "forwarder-1",
+	// lengths 0, 1, 31, 32, 33, 64, 255 and names with blanks: the random suffix must survive whatever the name
+	"", "n", strings.Repeat("n", 31), strings.Repeat("m", 32), strings.Repeat("k", 33), strings.Repeat("long-name-", 6) + "abcd", strings.Repeat("x", 255),
+	"my proxy", "edge proxy east 1"}
 var foreignBy = []string{"alpha", "beta", "proxy.example.com:8080", "[::1]:3128", "10.0.0.1", "fw", "forwarder", "martian-0011223344"}
 var foreignProto = []string{"1.0", "1.1", "2.0", "HTTP/1.1", "HTTP/2", "3"}
 var comments = []string{"", "", "", " (squid/5.7)", " (a, b)", " (martian)", "\t(x)"}
@@ -356,6 +359,7 @@ type eobs struct {
 	TagA     string   `json:"tag_a"`
 	TagB     string   `json:"tag_b"`
 	TagM     string   `json:"tag_m,omitempty"`
+	TagT     string   `json:"tag_t,omitempty"`
 	Err      string   `json:"err,omitempty"`
 }
 
@@ -365,12 +369,19 @@ type rig struct {
 	T                *g01rig.Origin // TLS origin (target of intercepted tunnels)
 	A, B, M          *g01rig.Proxy  // M intercepts CONNECT tunnels (MITM)
 	tagA, tagB, tagM string
+	S                *g01rig.Origin // scripted upstream proxy behind TLS (an https:// upstream)
+	Tp               *g01rig.Proxy  // a real forwarder instance listening with TLS (an https:// upstream that can loop back)
+	tagT             string
 }
 
 func learnTag(o *g01rig.Origin, p *g01rig.Proxy) (string, error) {
 	p.SetUpstream(nil)
 	_, n0 := o.Snapshot()
-	c, err := g01rig.Dial(p.Addr)
+	dial := g01rig.Dial
+	if p.URL().Scheme == "https" {
+		dial = g01rig.DialTLS
+	}
+	c, err := dial(p.Addr)
 	if err != nil {
 		return "", err
 	}
@@ -417,7 +428,7 @@ func newRig(sameName bool, nameA string) (*rig, error) {
 		return []byte("HTTP/1.1 200 OK\r\nContent-Length: 2\r\n\r\nok")
 	}
 	// A is wired like the forwarder binary (Transport.GetProxyConnectHeader always set), B like a plain library user
-	a, err := g01rig.StartProxyOpts(nameA, g01rig.ProxyOpts{ConnectHeaderCallback: true})
+	a, err := g01rig.StartProxyOpts(nameA, g01rig.ProxyOpts{ConnectHeaderCallback: true, InsecureUpstreamTLS: true})
 	if err != nil {
 		return nil, err
 	}
@@ -433,7 +444,19 @@ func newRig(sameName bool, nameA string) (*rig, error) {
 	if err != nil {
 		return nil, err
 	}
-	rg := &rig{O: o, P: pr, T: to, A: a, B: bp, M: mp}
+	so, err := g01rig.NewTLSOrigin()
+	if err != nil {
+		return nil, err
+	}
+	so.Respond = pr.Respond
+	tp, err := g01rig.StartProxyOpts(nameB, g01rig.ProxyOpts{HTTPSListener: true})
+	if err != nil {
+		return nil, err
+	}
+	rg := &rig{O: o, P: pr, T: to, A: a, B: bp, M: mp, S: so, Tp: tp}
+	if rg.tagT, err = learnTag(o, tp); err != nil {
+		return nil, err
+	}
 	if rg.tagM, err = learnTag(o, mp); err != nil {
 		return nil, err
 	}
@@ -450,6 +473,8 @@ func (rg *rig) stop() {
 	rg.A.Stop()
 	rg.B.Stop()
 	rg.M.Stop()
+	rg.Tp.Stop()
+	rg.S.Close()
 	rg.O.Close()
 	rg.P.Close()
 	rg.T.Close()
@@ -469,6 +494,14 @@ func (rg *rig) run(c ecaseJSON) eobs {
 		rg.B.SetUpstream(rg.A.URL())
 	case "AP":
 		rg.A.SetUpstream(&url.URL{Scheme: "http", Host: rg.P.Addr()})
+	case "AS": // A -> scripted upstream proxy behind TLS
+		rg.A.SetUpstream(&url.URL{Scheme: "https", Host: rg.S.Addr()})
+	case "AT": // A -> real forwarder behind TLS -> origin
+		rg.A.SetUpstream(rg.Tp.URL())
+		rg.Tp.SetUpstream(nil)
+	case "ATA": // A -> real forwarder behind TLS -> A
+		rg.A.SetUpstream(rg.Tp.URL())
+		rg.Tp.SetUpstream(rg.A.URL())
 	case "M":
 		rg.M.SetUpstream(nil)
 	case "MM":
@@ -478,6 +511,11 @@ func (rg *rig) run(c ecaseJSON) eobs {
 	if c.Route == "AP" {
 		sink = rg.P
 	}
+	if c.Route == "AS" {
+		sink = rg.S
+	}
+	rg.Tp.LoopGuard.Store(rg.Tp.Passed.Load() + 8)
+	rg.Tp.RouteGuard.Store(rg.Tp.Routed.Load() + 8)
 	if strings.HasPrefix(c.Route, "M") {
 		return rg.runMITM(c)
 	}
@@ -486,7 +524,7 @@ func (rg *rig) run(c ecaseJSON) eobs {
 	rg.A.RouteGuard.Store(rg.A.Routed.Load() + 8)
 	rg.B.RouteGuard.Store(rg.B.Routed.Load() + 8)
 	conns0, n0 := sink.Snapshot()
-	ob := eobs{TagA: rg.tagA, TagB: rg.tagB}
+	ob := eobs{TagA: rg.tagA, TagB: rg.tagB, TagT: rg.tagT}
 	cl, err := g01rig.Dial(rg.A.Addr)
 	if err != nil {
 		ob.Err = err.Error()
@@ -574,7 +612,7 @@ func (rg *rig) route(c ecaseJSON) []hopJSON {
 		min = 0
 	}
 	var hops []hopJSON
-	for i, ch := range strings.TrimSuffix(c.Route, "P") {
+	for i, ch := range strings.TrimSuffix(strings.TrimSuffix(c.Route, "P"), "S") {
 		h := hopJSON{Proxy: string(ch), Maj: 1, Min: 1} // net/http's Transport always speaks HTTP/1.1 to the next hop
 		if i == 0 {
 			h.Maj, h.Min = maj, min
@@ -593,6 +631,8 @@ func coqEcase(rg *rig, c ecaseJSON, o eobs) string {
 			tag, inst = o.TagB, 2
 		case "M":
 			tag, inst = o.TagM, 3
+		case "T":
+			tag, inst = o.TagT, 4
 		}
 		hops = append(hops, fmt.Sprintf("{| hp_inst := %d; hp_tag := %s; hp_maj := %d; hp_min := %d |}", inst, coqfmt.Str(tag), h.Maj, h.Min))
 	}
@@ -604,13 +644,13 @@ func coqEcase(rg *rig, c ecaseJSON, o eobs) string {
 		contacts = 1 // one tunnel = one contact (connection + the request sent through it)
 	}
 	return fmt.Sprintf("{| e_route := %s; e_client_via := %s; e_nominated := %s; e_connect := %s; e_status := %d; e_origin_contacts := %d; e_origin_via := %s |}",
-		coqfmt.List("hop", hops), coqfmt.StrList(c.ClientVia), coqfmt.Bool(c.Nominate), coqfmt.Bool(c.Method == "CONNECT" && c.Route != "AP"),
+		coqfmt.List("hop", hops), coqfmt.StrList(c.ClientVia), coqfmt.Bool(c.Nominate), coqfmt.Bool(c.Method == "CONNECT" && c.Route != "AP" && c.Route != "AS"),
 		o.Status, contacts, coqfmt.StrList(o.SeenVia))
 }
 
 func genEcase(r *rng.R, rg *rig, sameName bool) ecaseJSON {
 	c := ecaseJSON{SameName: sameName, Proto: "HTTP/1.1", Method: "GET"}
-	c.Route = []string{"A", "A", "AA", "AB", "ABA", "AP", "M", "MM"}[r.Intn(8)]
+	c.Route = []string{"A", "A", "AA", "AB", "ABA", "AP", "M", "MM", "AS", "AT", "ATA"}[r.Intn(11)]
 	if r.Chance(1, 4) {
 		c.Proto = "HTTP/1.0"
 	}
@@ -919,7 +959,7 @@ func main() {
 	if *tier == "thorough" {
 		nStacks = 1024
 	}
-	for _, name := range namePool[:4] {
+	for _, name := range append(append([]string{}, namePool[:4]...), namePool[8:]...) {
 		tags := stackTags(name, nStacks)
 		m.StackTags += len(tags)
 		uc = append(uc, fmt.Sprintf("{| u_name := %s; u_tags := %s |}", coqfmt.Str(name), coqfmt.StrList(tags)))
@@ -953,8 +993,16 @@ func main() {
 	// ---- 2. end to end
 	var ec []string
 	var ej []any
-	for _, same := range []bool{false, true} {
-		rg, err := newRig(same, r.Pick(namePool[:4]))
+	type rigSpec struct {
+		same  bool
+		name  string
+		small bool
+	}
+	rigs := []rigSpec{{false, r.Pick(namePool[:4]), false}, {true, r.Pick(namePool[:4]), false},
+		{true, strings.Repeat("k", 33), true}, {true, "edge proxy east 1", true}}
+	for _, spec := range rigs {
+		same := spec.same
+		rg, err := newRig(same, spec.name)
 		if err != nil {
 			fmt.Fprintln(os.Stderr, "rig:", err)
 			os.Exit(4)
@@ -978,6 +1026,14 @@ func main() {
 				ecaseJSON{Route: route, SameName: same, Proto: "HTTP/1.1", Method: "CONNECT", ClientVia: []string{"1.1 alpha", "1.1 " + rg.tagA}, OwnOf: "A"},
 			)
 		}
+		for _, route := range []string{"AS", "AT", "ATA"} { // https:// upstreams
+			cases = append(cases,
+				ecaseJSON{Route: route, SameName: same, Proto: "HTTP/1.1", Method: "GET", ClientVia: []string{"1.0 alpha"}},
+				ecaseJSON{Route: route, SameName: same, Proto: "HTTP/1.1", Method: "CONNECT"},
+				ecaseJSON{Route: route, SameName: same, Proto: "HTTP/1.1", Method: "CONNECT", ClientVia: []string{"1.0 alpha", "1.1 beta"}},
+				ecaseJSON{Route: route, SameName: same, Proto: "HTTP/1.1", Method: "CONNECT", ClientVia: []string{"1.1 alpha", "1.1 " + rg.tagA}, OwnOf: "A"},
+			)
+		}
 		for _, route := range []string{"M", "MM"} {
 			cases = append(cases,
 				ecaseJSON{Route: route, SameName: same, Proto: "HTTP/1.1", Method: "GET"},
@@ -989,7 +1045,11 @@ func main() {
 			ecaseJSON{Route: "A", SameName: same, Proto: "HTTP/1.1", Method: "GET", ClientVia: []string{"1.1 alpha"}, Nominate: true},
 			ecaseJSON{Route: "A", SameName: same, Proto: "HTTP/1.1", Method: "GET", ClientVia: []string{"1.1 " + rg.tagA}, OwnOf: "A", Nominate: true},
 		)
-		for len(cases) < nE2E/2 {
+		want := nE2E / 2
+		if spec.small {
+			want = len(cases) + nE2E/16
+		}
+		for len(cases) < want {
 			cases = append(cases, genEcase(r, rg, same))
 		}
 		for _, c := range cases {
@@ -1009,6 +1069,7 @@ func main() {
 		m.OriginParseErr = append(m.OriginParseErr, rg.O.Errors()...)
 		m.OriginParseErr = append(m.OriginParseErr, rg.P.Errors()...)
 		m.OriginParseErr = append(m.OriginParseErr, rg.T.Errors()...)
+		m.OriginParseErr = append(m.OriginParseErr, rg.S.Errors()...)
 		rg.stop()
 	}
 	m.E2ECases = len(ec)
@@ -1031,6 +1092,7 @@ func untag(c ecaseJSON, rg *rig) ecaseJSON {
 		l = strings.ReplaceAll(l, rg.tagA, "{TAG_A}")
 		l = strings.ReplaceAll(l, rg.tagB, "{TAG_B}")
 		l = strings.ReplaceAll(l, rg.tagM, "{TAG_M}")
+		l = strings.ReplaceAll(l, rg.tagT, "{TAG_T}")
 		out.ClientVia = append(out.ClientVia, l)
 	}
 	return out
@@ -1042,6 +1104,7 @@ func retag(lines []string, rg *rig) []string {
 		l = strings.ReplaceAll(l, "{TAG_A}", rg.tagA)
 		l = strings.ReplaceAll(l, "{TAG_B}", rg.tagB)
 		l = strings.ReplaceAll(l, "{TAG_M}", rg.tagM)
+		l = strings.ReplaceAll(l, "{TAG_T}", rg.tagT)
 		out = append(out, l)
 	}
 	return out
